@@ -33,8 +33,11 @@ Definition bitz (w i : Z) : Z := Z.b2z (Z.testbit w i).
 Fixpoint zseq (start : Z) (len : nat) : list Z :=
   match len with O => [] | S k => start :: zseq (start + 1) k end.
 (* FromBits::from_bits on the first [n] bits: sum of f i * 2^i *)
-Definition word_of_bits (n : nat) (f : Z -> bool) : Z :=
-  fold_right (fun i acc => acc + Z.b2z (f i) * 2 ^ i) 0 (zseq 0 n).
+Fixpoint word_of_bits (n : nat) (f : Z -> bool) : Z :=
+  match n with
+  | O => 0
+  | S k => word_of_bits k f + Z.b2z (f (Z.of_nat k)) * 2 ^ Z.of_nat k
+  end.
 
 (* ------------------------------------------------------------------------------------------------ *)
 (** * Ideal plaintext polynomials *)
@@ -223,8 +226,9 @@ Definition glwe_blind_selection (bits : Z) (k : sel_bits) (rsh mask : Z) (m : fm
     end
   else None.
 
-(* Cswap *)
-Definition cswap (bit : bool) (ab : Z * Z) : Z * Z := if bit then (snd ab, fst ab) else ab.
+(* Cswap: res_big = (b - a) * bit; res_a = res_big + a; res_b = b - res_big (on the encrypted words: every coefficient) *)
+Definition cswap (bit : bool) (ab : Z * Z) : Z * Z :=
+  let d := (snd ab - fst ab) * Z.b2z bit in (d + fst ab, snd ab - d).
 
 Definition lget (l : list Z) (i : Z) : Z := nth (Z.to_nat i) l 0.
 Fixpoint lset (l : list Z) (i : nat) (v : Z) : list Z :=
